@@ -49,6 +49,7 @@ OPS = [
     ("time_course", {"rel": [-0.5, 0.5]}),
     ("time_course", {"rel": [-0.5, 0.0]}),
     ("time_course", {"rel": [0.75]}),
+    ("time_course", {"rel": ["eps", 0.5]}),  # first point only just later than the time reached
     ("protocol", {"steps": 2}),
     ("protocol_time_course", {"points": [0.25, 1.0], "relative": False}),
     ("protocol_time_course", {"points": [0.25, 1.0], "relative": True}),
@@ -63,6 +64,11 @@ OPS = [
 PROTOCOL = [(0.5, {"k": 2.0}), (1.0, {"k": 0.5})]
 VARIANTS = {"auto": {"k": 1.0, "c": 2.0, "a": 0.0}, "timedep": {"k": 1.0, "c": 2.0, "a": 0.5}}
 X0 = 1.0
+
+
+def _off(T, r):
+    """Offset of a requested point from the reached time T ('eps' = 1e-6 relative, far above round-off)."""
+    return 1e-6 * max(1.0, abs(T)) if r == "eps" else r
 
 
 def r_in(c, a, time):
@@ -140,7 +146,7 @@ def apply_real(sim, op, T):
         if name == "simulate":
             sim.simulate(T + a["d"], steps=a["steps"])
         elif name == "time_course":
-            sim.simulate_time_course(np.array([T + r for r in a["rel"]], dtype=float))
+            sim.simulate_time_course(np.array([T + _off(T, r) for r in a["rel"]], dtype=float))
         elif name == "protocol":
             sim.simulate_protocol(mxlpy.make_protocol(PROTOCOL), time_points_per_step=a["steps"])
         elif name == "protocol_time_course":
@@ -184,7 +190,7 @@ def apply_ref(ref: Reference, op):
         ref.requested.append(t_end)
         return "ok"
     if name == "time_course":
-        pts = [T + r for r in a["rel"]]
+        pts = [T + _off(T, r) for r in a["rel"]]
         if pts[-1] <= T:
             return "refuse"
         ref._segment(pts[-1])
